@@ -561,7 +561,7 @@ static Minimised minimise(const Plan& orig, uint64_t seed, const RunResult& firs
         if (plan_fails(c, seed, TRIES, cls, site, ss, r)) { m.plan = c; m.sched_seed = ss; m.result = r; progress = true; }
       }
     // simplify environment: faults off, store buffer off, policy random
-    static const char* simplify[][2] = {{"faults", "0"}, {"sb", "0"}, {"policy", "0"}, {"jump_den", "0"}, {"spurious_den", "0"}, {"post_pts", "0"}};
+    static const char* simplify[][2] = {{"faults", "0"}, {"sb", "0"}, {"policy", "0"}, {"jump_den", "0"}, {"spurious_den", "0"}, {"post_stall", "0"}, {"post_pts", "0"}};
     for (auto& kv : simplify) {
       if (!min_left(budget_runs)) break;
       auto it = m.plan.cfg.find(kv[0]);
